@@ -79,6 +79,12 @@ pub trait Prop: Sync {
     fn probes(&self) -> Vec<&'static str> {
         vec![]
     }
+    /// When a scenario hangs: an execution of the same scenario that the property
+    /// compares the others with (e.g. the reference schedule).  If THAT one finishes,
+    /// the hang is specific to what this property varies and is its violation too.
+    fn hang_probe(&self, _sc: &Scenario) -> Option<simcore::exec::Exec> {
+        None
+    }
     /// one-off obligations outside the seeded search (e.g. a link test)
     fn extra(&self, _st: &mut Stats) -> Result<(), (String, String)> {
         Ok(())
@@ -230,6 +236,30 @@ pub fn run_batch(p: &'static dyn Prop, seed: u64, thorough: bool, budget: u64, w
             slot.abandoned.store(true, Ordering::Relaxed);
             sh.live.fetch_sub(1, Ordering::SeqCst);
             hangs.push(i - 1);
+            // does the property's reference execution of this scenario finish?
+            {
+                let sc = p.generate_at(i - 1, sc_seed, thorough);
+                if let Some(ex) = p.hang_probe(&sc) {
+                    let (tx, rx) = std::sync::mpsc::channel();
+                    std::thread::spawn(move || {
+                        let o = crate::dispatch::execute(&ex);
+                        let _ = tx.send(o.crashed());
+                    });
+                    if let Ok(false) = rx.recv_timeout(std::time::Duration::from_secs(5)) {
+                        let mut sc = sc;
+                        sc.class = "hang".into();
+                        sc.set("tree_seed", simcore::spec::TREE_SEED as i64);
+                        let path = format!("{out_dir}/replays/{}-{sc_seed}.replay", p.id());
+                        let _ = std::fs::create_dir_all(format!("{out_dir}/replays"));
+                        let _ = std::fs::write(&path, sc.to_text());
+                        println!("VIOLATION property={} replay={path}", p.id());
+                        println!("  class=hang");
+                        println!("  stream: {}", crate::scenario::show(&sc.bytes()));
+                        println!("  the reference execution of this scenario finishes, another one does not return to the executor within 10 s (scenario index {})", i - 1);
+                        std::process::exit(1);
+                    }
+                }
+            }
             println!("NOTE: scenario index {} (seed {sc_seed}) did not return within 10 s; hangs are C05's subject, the scenario is skipped and its thread abandoned", i - 1);
             if hangs.len() >= 12 || used_slots >= sh.slots.len() {
                 // the library hangs often: stop handing out work, let the live workers
